@@ -189,3 +189,50 @@ func disDeadBranchOracle(c *Ctx) {
 		}
 	}
 }
+
+// disRepeatOracle: a refused script does not weaken the table: the same symbol table (one-shot compiles
+// and an Eval session) refuses the reference again after a compilation that failed - for the disabled
+// name itself or for any other reason - and still reports the disabled set.
+func disRepeatOracle(c *Ctx) {
+	for _, t := range []string{"len", "string", "append"} {
+		for _, first := range []string{"return T(\"ab\")", "x := 1\nreturn x +", "return undefinedName", "x := 1\nx := 2", "return T"} {
+			for _, noOpt := range []bool{false, true} {
+				c.dist["oracle:disabled-after-failed-compile"]++
+				st := ugo.NewSymbolTable()
+				st.DisableBuiltin(t, "cap")
+				opts := ugo.CompilerOptions{SymbolTable: st, NoOptimize: noOpt}
+				_, err1 := disCompile(strings.ReplaceAll(first, "T", t), opts)
+				if err1 == nil {
+					continue // reported by the other oracles
+				}
+				second := "v := [1, 2]\nreturn " + t + "(v)"
+				bc, err2 := disCompile(second, opts)
+				if err2 == nil {
+					what := "compiles"
+					if l := disScan(bc, []string{t}); len(l) > 0 {
+						what = "compiles to bytecode with GETBUILTIN " + strings.Join(l, ",")
+					}
+					c.Violation(PropViolation{"C13", fmt.Sprintf("after a compilation with the same symbol table failed (%s), a script that references the disabled builtin %s %s (NoOptimize=%v)", disFirstLine(err1.Error()), t, what, noOpt),
+						strings.ReplaceAll(first, "T", t) + "\n---\n" + second, "C13:ref-compiled:after-failed-compile"})
+					continue
+				}
+				if got := fmt.Sprint(st.DisabledBuiltins()); !strings.Contains(got, t) {
+					c.Violation(PropViolation{"C13", "after a failed compilation the symbol table no longer reports " + t + " as disabled: " + got, first, "C13:disabled-set-lost"})
+				}
+				// the same in a session
+				st2 := ugo.NewSymbolTable()
+				st2.DisableBuiltin(t, "cap")
+				ev := ugo.NewEval(ugo.CompilerOptions{SymbolTable: st2, NoOptimize: noOpt}, nil)
+				_, _ = disEvalRun(ev, "a := [1, 2, 3]")
+				if _, err := disEvalRun(ev, strings.ReplaceAll(first, "T", t)); err == nil {
+					continue
+				}
+				if bc, err := disEvalRun(ev, "return "+t+"(a)"); err == nil {
+					_ = bc
+					c.Violation(PropViolation{"C13", fmt.Sprintf("Eval session: after a fragment was refused, a later fragment that references the disabled builtin %s compiles and runs (NoOptimize=%v)", t, noOpt),
+						strings.ReplaceAll(first, "T", t), "C13:ref-compiled:after-failed-fragment"})
+				}
+			}
+		}
+	}
+}
